@@ -295,6 +295,14 @@ func (e *explorer) stateCheck(idm *memidm.MemIdm, m *Model) (vs []viol, lookups 
 		}
 	}
 
+	// the accessors the statement names, in this state (see Model.accessor): what
+	// they return is a constant of the instance and must not follow the names
+	for _, c := range []Call{{M: "AdminUser"}, {M: "AdminGroup"}} {
+		if o := look(c); o.Err == EPanic || o.Err == EDeadlock {
+			return vs, lookups
+		}
+	}
+
 	// inside view
 	for _, l := range idm.VerifCheck() {
 		cl := reDigits.ReplaceAllString(reQuoted.ReplaceAllString(l, "$1 X "), "N")
@@ -494,7 +502,7 @@ func (e *explorer) replayObject(hist []uint8, op int, v viol, preState string) m
 	}
 
 	switch {
-	case v.Check.M == "VerifCheck" || v.Check.M == "VerifDump" || v.Check.M == "AdminUser" || v.Check.M == "AdminGroup":
+	case v.Check.M == "VerifCheck" || v.Check.M == "VerifDump":
 	case v.Phase == "post":
 		r["go_test"] = e.goTest(full, v.Check)
 	default:
@@ -699,7 +707,7 @@ func runSequential(tier string, depth int, rep *kf.Reporter, deadline time.Time)
 	res.Evaluations = res.Transitions + lookups // calls executed on the real MemIdm and compared with the model
 	res.Samples = samples
 	res.Exhaustive = !timedOut && completed == depth
-	res.Bound = fmt.Sprintf("all histories of <= %d calls over an alphabet of %d calls (groups %v, users %v, ids %v); %d asked for", completed, len(e.ops), e.groups, e.users, e.opIDs, depth)
+	res.Bound = fmt.Sprintf("all histories of <= %d calls over an alphabet of %d calls (groups %v, users %v, ids %v), the accessors AdminUser() and AdminGroup() asked and judged in every state reached; %d asked for", completed, len(e.ops), e.groups, e.users, e.opIDs, depth)
 	res.Extra["seq_per_depth"] = per
 	res.Extra["seq_alphabet"] = len(e.ops)
 	res.Extra["seq_depth_completed"] = completed
@@ -711,6 +719,7 @@ func runSequential(tier string, depth int, rep *kf.Reporter, deadline time.Time)
 		"ids are compared as relations (unique, stable, never given to another name, user gid = gid of its group at AddUser), not as numbers",
 		"deleting the administrator user/group may succeed or fail (the statement does not say); AddUser with an unknown group may fail with any error type (none is documented for it)",
 		"a re-added name receiving an id that the same name held before is not counted as a reassignment",
+		"the state check after every call (all parts that run it: seq, inst, inst-conc) also asks AdminUser() and AdminGroup(): in every state they must return the built-in entries (administrator names of the OS type, uid/gid 0, user's primary gid 0, IsAdmin true), whatever was deleted or added again under those names; they count as lookups of the state check",
 	}
 
 	var pd []string
